@@ -8,7 +8,9 @@ Import ListNotations.
 Open Scope Q_scope.
 
 (* what the implementation returned for a values-like observation *)
-Inductive iout := IVals (v : list (list Q)) | IMarker | IErrIndex | IErrValue | ISkip.
+Inductive iout := IVals (v : list (list Q)) (* a 2-d array *) | IVec (r : list Q) (* a 1-d array *) | IMarker | IErrIndex | IErrValue | ISkip
+  | ISame       (* the observation is identical to the PersLandscapeApprox(...).values observation *)
+  | ISameFlat.  (* the observation is that one, flattened *)
 
 Definition qclose (tol x y : Q) : bool := Qle_bool (Qabs (x - y)) tol.
 Fixpoint row_close (tol : Q) (a b : list Q) : bool :=
@@ -27,23 +29,27 @@ Definition all_zero_rows (v : list (list Q)) : bool := forallb (forallb (fun x =
 
 Inductive verdict := Agree | LegacyEmpty | Disagree.
 
-(* an observation against the model's result (intended) and the legacy model's result *)
-Definition judge (tol : Q) (m : res (list (list Q))) (lg : res lres) (o : iout) : verdict :=
+(* an observation against the model's result (intended) and the legacy model's result (only
+   evaluated when it is needed).  flatm: the model result [row] stands for the 1-d array row. *)
+Definition judge (tol : Q) (flatm : bool) (m : res (list (list Q))) (lg : unit -> res lres) (o : iout) : verdict :=
+  let legacy_empty := fun _ : unit => match lg tt with Ok LEmptyMarker => Agree | _ => Disagree end in
   match o with
   | ISkip => Agree
+  | ISame | ISameFlat => Disagree   (* resolved before judging *)
   | IErrIndex => match m with ErrIndex => Agree | _ => Disagree end
   | IErrValue => match m with ErrEmptyDiagram => Agree | _ => Disagree end
-  | IMarker => match lg with Ok LEmptyMarker => LegacyEmpty | _ => Disagree end
+  | IMarker => match lg tt with Ok LEmptyMarker => LegacyEmpty | _ => Disagree end
   | IVals v =>
       match m with
+      | Ok mv => if negb flatm && rows_close tol mv v then Agree else Disagree
+      | _ => Disagree
+      end
+  | IVec r =>
+      match m with
       | Ok mv =>
-          if rows_close tol mv v then Agree
-          else (* a repair that returns no rows at all for an empty landscape is as good *)
-            match lg, v with
-            | Ok LEmptyMarker, [] => Agree
-            | Ok LEmptyMarker, [[]] => Agree
-            | _, _ => Disagree
-            end
+          if flatm && rows_close tol mv [r] then Agree
+          else (* a repair that returns an empty array for an empty landscape is as good *)
+            match r with [] => legacy_empty tt | _ => Disagree end
       | _ => Disagree
       end
   end.
@@ -75,12 +81,32 @@ Definition judge_dv (dgms : list (list xbar)) (o : option (list ext)) : bool :=
 
 Definition vcode (v : verdict) : Z := match v with Agree => 0 | LegacyEmpty => 1 | Disagree => 2 end%Z.
 
+Definition map_res {X Y} (f : X -> Y) (r : res X) : res Y :=
+  match r with Ok v => Ok (f v) | ErrIndex => ErrIndex | ErrEmptyDiagram => ErrEmptyDiagram
+             | ErrInfiniteGrid => ErrInfiniteGrid end.
+(* the flattening transformer is the plain one followed by flattening (so the model runs once) *)
+Lemma landscaper_flat_eq start stop n dgms h :
+  landscaper true start stop n dgms h = map_res flat (landscaper false start stop n dgms h).
+Proof. unfold landscaper, landscaper_gen. destruct (nth_error dgms h); auto.
+  destruct (fit_ends start stop l) as [[s e]| | |]; auto.
+  destruct (ctor_gen approx_values (Some s) (Some e) n dgms h) as [[[? ?] ?]| | |]; auto. Qed.
+
+Definition resolve (oa o : iout) : iout :=
+  match o with
+  | ISame => oa
+  | ISameFlat => match oa with IVals v => IVec (concat v) | x => x end
+  | x => x
+  end.
+
 (* digits, least significant first: approx (0/1/2), landscaper (x4), landscaper flattened (x16),
    vectorize (x64: 0/1), death vector (x128: 0/1) *)
 Definition check_case (tol : Q) (start stop : option Q) (n : nat) (dgms : list (list xbar)) (hom_deg : nat)
   (oa ol of_ : iout) (ov : vobs) (od : option (list ext)) : Z :=
-  (vcode (judge tol (strip (approx_ctor start stop n dgms hom_deg)) (strip (approx_ctor_legacy start stop n dgms hom_deg)) oa)
-   + 4 * vcode (judge tol (landscaper false start stop n dgms hom_deg) (landscaper_legacy false start stop n dgms hom_deg) ol)
-   + 16 * vcode (judge tol (landscaper true start stop n dgms hom_deg) (landscaper_legacy true start stop n dgms hom_deg) of_)
+  let ml := landscaper false start stop n dgms hom_deg in
+  let lgl := fun _ : unit => landscaper_legacy false start stop n dgms hom_deg in
+  (vcode (judge tol false (strip (approx_ctor start stop n dgms hom_deg))
+                (fun _ => strip (approx_ctor_legacy start stop n dgms hom_deg)) oa)
+   + 4 * vcode (judge tol false ml lgl (resolve oa ol))
+   + 16 * vcode (judge tol true (map_res flat ml) lgl (resolve oa of_))
    + 64 * (if judge_vectorize tol n ov then 0 else 1)
    + 128 * (if judge_dv dgms od then 0 else 1))%Z.
